@@ -2,7 +2,8 @@
 with what budgets (cases per shard), for the quick and the thorough tier; plus the texts that
 go into MANIFEST.json and the evidence files."""
 
-SETUP_CONFIGS = ["std-rel", "std-dbg", "portable-rel", "portable-dbg", "nounroll-rel", "asan", "miri-build"]
+SETUP_CONFIGS = ["std-rel", "std-dbg", "portable-rel", "portable-dbg", "nounroll-rel", "asan", "miri-build", "tsan",
+                 "nostd-sse2", "nostd-ssse3", "nostd-sse41", "nostd-avx", "nostd-avx2"]
 
 HOOK_COMMITS = ["0eb0db3", "aa9cd32"]
 NOT_APPLICABLE = {}
